@@ -105,6 +105,9 @@ fn main() {
     out.set("wall_s", t0.elapsed().as_secs_f64());
     out.set("features", J::obj().with("batch", cfg!(feature = "batch")));
     out.set("profile_overflow_checks", cfg!(debug_assertions));
+    // built-in models of the tree beyond the 14 the harness was written against (build.rs)
+    out.set("extra_builtin_models_driven", rig::EXTRA_NAMES.iter().map(|s| s.to_string()).collect::<Vec<String>>());
+    out.set("extra_builtin_models_not_wired", rig::EXTRA_SKIPPED.iter().map(|s| s.to_string()).collect::<Vec<String>>());
     let s = out.to_string();
     match &args.out {
         Some(p) => std::fs::write(p, s).expect("write out"),
